@@ -19,8 +19,8 @@ def main(chk, tier):
              'normal path SortGeometry assigns collider_ from a constructed Collider and bBox_ from it, CalculateBBox '
              'assigns both corners of bBox_ from vertPos_, MakeEmpty resets both (must-pass-through dataflow; '
              'cancel and emptiness early-outs excepted)')
-    chk.rule('C18.3', 'every mutable data member of Manifold::Impl (a cache of derived data, writable through the shared '
-             'const Impl) is reset between any geometry mutation and the next escape (dynamic typestate bit per member; '
+    chk.rule('C18.3', 'every mutable or bool data member of Manifold::Impl (a cache of derived data writable through the shared '
+             'const Impl, or an assertion about the geometry such as "is convex") is reset or re-assigned between any geometry mutation and the next escape (dynamic typestate bit per member; '
              'today Impl has none, the self-test mutant adds one)')
     for cfgname in configs:
         db = D.load(cfgname)
